@@ -178,6 +178,28 @@ func main() {
 		xlib.Unreadable("changedTargets has %d parameters", len(p))
 	}
 	out.Def("changedTargets", "List String", xlib.LeanStrList(stmts(f, ct, map[string]string{p[0]: "STATE", p[1]: "FILES", p[2]: "CHANGED", p[3]: "LEVEL", p[4]: "SUBREPOS"})))
+	// does the loop that collects the labels of the directly changed targets (the seeds handed to FindRevdeps) test
+	// ShouldInclude?  It is the range statement over the `changed` parameter.
+	seedsFiltered, seedLoops := false, 0
+	for _, st := range ct.Body.List {
+		rs, ok := st.(*ast.RangeStmt)
+		if !ok || ident(rs.X) != p[2] {
+			continue
+		}
+		seedLoops++
+		ast.Inspect(rs.Body, func(n ast.Node) bool {
+			if c, ok := n.(*ast.CallExpr); ok {
+				if sel, ok := c.Fun.(*ast.SelectorExpr); ok && sel.Sel.Name == "ShouldInclude" {
+					seedsFiltered = true
+				}
+			}
+			return true
+		})
+	}
+	if seedLoops != 1 {
+		xlib.Unreadable("changedTargets: %d loops over the changed set, expected 1", seedLoops)
+	}
+	out.Def("seedsFiltered", "Bool", xlib.LeanBool(seedsFiltered))
 	dg := f.Func("diffGraphs")
 	dp := paramNames(dg)
 	out.Def("diffGraphs", "List String", xlib.LeanStrList(stmts(f, dg, map[string]string{dp[0]: "BEFORE", dp[1]: "AFTER"})))
